@@ -65,6 +65,7 @@ def gen_world(t, prop):
     menu = worlds.VAR_MENU + ["A10", "D10", "A12", "O10"] if t.chance(1, 4) else None     # two-digit lengths
     spec = worlds.gen_syn(t, hostile=hostile, omen=omen, max_pts=600 if prop == "C02" else 1500, menu=menu)
     # PRINCE base structures: single-variable structures
+    spec["spell"] = t.draw(4) if t.chance(1, 4) else 0        # same probability written as 0.5 / 0.50 / 5.0e-01
     names = [v for v in spec["vars"] if v[0] != "C"]
     pr = worlds._descending_probs(t, "normalised", min(4, len(names)))
     spec["prince"] = [[n, p] for n, p in zip(names, pr)]
@@ -106,25 +107,26 @@ def run_one(tape, tier, prop):
     lang_keys = list(lang) if do_heap else None
 
     def inspect(q, entry, n):
-        key = (entry["base_prob"], entry["pt"])
+        key = (ref.canonical_base_prob(entry["pt"], entry["base_prob"]), entry["pt"])
         emitted[key] += 1
         if not do_heap or heap_problems:
             return
         heap_keys = collections.Counter()
         for qi in q.p_queue:
             it = qi.pt_item
-            k = (it["base_prob"], tuple(tuple(x) for x in it["pt"]))
+            kpt = tuple(tuple(x) for x in it["pt"])
+            k = (ref.canonical_base_prob(kpt, it["base_prob"]), kpt)
             heap_keys[k] += 1
             if it["prob"] > entry["prob"]:
                 heap_problems.append(("heap_above_last_pop", n, repr(k)))
                 return
         for k, c in heap_keys.items():
+            # not judged (another correct queue could hold duplicates and drop them on pop); counted as probes,
+            # the end-of-run multiset comparison decides
             if c > 1:
-                heap_problems.append(("duplicate_in_heap", n, repr(k)))
-                return
+                res.stats["probe_duplicate_in_heap"] += 1
             if emitted[k]:
-                heap_problems.append(("emitted_still_in_heap", n, repr(k)))
-                return
+                res.stats["probe_emitted_still_in_heap"] += 1
         # closure
         by_shape = collections.defaultdict(list)
         for k in heap_keys:
@@ -254,12 +256,21 @@ def run_one(tape, tier, prop):
                 res.stats["m_inside_longer_structure"] += 1
                 continue
             grp = ref.vars["M"][h["pt"][0][1]]
+            multi_key = None
+            try:
+                want = []
+                for lv in grp["values"]:
+                    want.extend(romen.strings(int(lv)))
+                first_only = romen.strings(int(grp["values"][0]))
+            except OverflowError:
+                continue
             if len(grp["values"]) > 1:
                 res.stats["m_group_multi_level"] += 1
-                continue
-            try:
-                want = romen.strings(int(grp["values"][0]))
-            except OverflowError:
+                if sorted(lines) == sorted(first_only) and sorted(want) != sorted(first_only):
+                    multi_key = "markov-group-of-equal-probability-levels:only-first-level-generated"
+            if sorted(want) != sorted(lines) and multi_key:
+                res.violate("C04", "markov_group_expands_first_level_only", {
+                    "levels_in_group": grp["values"], "written": len(lines), "expected": len(want)}, key=multi_key)
                 continue
             if sorted(want) != sorted(lines):
                 res.violate("C04", "omen_level_mismatch", {
@@ -316,3 +327,44 @@ def run_one(tape, tier, prop):
     res.digest = digest_of([[(h["pt"], h["prob"], h.get("text")) for h in hist],
                             [v.as_dict() for v in res.violations]])
     return res
+
+
+# ---------------------------------------------------------------------------
+# C01 determinism clause: the pop sequence in fresh interpreters under other hash seeds
+
+def child_digests(seeds):
+    from ..tape import Tape
+    out = {}
+    for sd in seeds:
+        r = run_one(Tape(seed=sd), "quick", "C01")
+        out[str(sd)] = r.digest
+    return out
+
+
+def extra_phase(tier, base_seed, prop="C01"):
+    if prop != "C01":
+        return {}
+    import json
+    import subprocess
+    import sys
+    n = 40 if tier == "quick" else 300
+    seeds = [base_seed * 7477 + 900 + i for i in range(n)]
+    here = os.path.dirname(os.path.dirname(os.path.dirname(os.path.abspath(__file__))))
+    runs = []
+    for hs in ("0", "3", "12345"):
+        env = dict(os.environ, PYTHONHASHSEED=hs, PYTHONUTF8="1")
+        code = ("import sys, json; sys.path.insert(0, %r); from pcfgsim import scratch; scratch.build(); "
+                "from pcfgsim.checks import queue; queue.warm(); json.dump(queue.child_digests(%r), sys.stdout)" % (here, seeds))
+        r = subprocess.run([sys.executable, "-W", "ignore", "-c", code], env=env, capture_output=True, text=True, timeout=1800)
+        if r.returncode != 0:
+            raise RuntimeError("child interpreter failed: " + r.stderr[-1500:])
+        runs.append(json.loads(r.stdout))
+    out = {"fresh_interpreter_runs": 3 * n, "hash_seeds": [0, 3, 12345], "violations": []}
+    for sd in seeds:
+        a, b, c = (r[str(sd)] for r in runs)
+        if not (a == b == c):
+            out["violations"].append({"seed": sd, "tape": [], "violation": {
+                "property": "C01", "kind": "sequence_depends_on_hash_seed", "key": None,
+                "detail": {"world_seed": sd}}, "case": None})
+            break
+    return out
